@@ -150,12 +150,40 @@ func strFormat(L *LState) int {
 		if i < len(str) && str[i] == '%' {
 			continue
 		}
-		for i < len(str) && strings.IndexByte("-+ #0123456789.", str[i]) >= 0 {
+		narg++
+		// scanformat of lstrlib.c: at most five flags, a width and a precision of two digits each
+		nflags := 0
+		for i < len(str) && strings.IndexByte("-+ #0", str[i]) >= 0 {
+			i++
+			nflags++
+		}
+		if nflags > 5 {
+			L.RaiseError("invalid format (repeated flags)")
+		}
+		for n := 0; n < 2 && i < len(str) && isDecimalByte(str[i]); n++ {
 			i++
 		}
-		narg++
-		if i < len(str) && strings.IndexByte("diouxXceEfgG", str[i]) >= 0 {
+		if i < len(str) && str[i] == '.' {
+			i++
+			for n := 0; n < 2 && i < len(str) && isDecimalByte(str[i]); n++ {
+				i++
+			}
+		}
+		if i < len(str) && isDecimalByte(str[i]) {
+			L.RaiseError("invalid format (width or precision too long)")
+		}
+		switch {
+		case i < len(str) && strings.IndexByte("diouxXceEfgG", str[i]) >= 0:
 			L.CheckNumber(narg)
+		case i < len(str) && (str[i] == 's' || str[i] == 'q'):
+			if narg > top {
+				L.ArgError(narg, "string expected, got no value")
+			}
+		case i < len(str):
+			// only the conversions of str_format: anything else would be interpreted by package fmt
+			L.RaiseError("invalid option '%%%c' to 'format'", str[i])
+		default:
+			L.RaiseError("invalid option '%s' to 'format'", "%") // the string ends in the middle of a directive
 		}
 	}
 	// a "%%" is two '%' characters and consumes no argument
@@ -163,6 +191,8 @@ func strFormat(L *LState) int {
 	L.Push(LString(fmt.Sprintf(str, args[:intMin(npat, len(args))]...)))
 	return 1
 }
+
+func isDecimalByte(c byte) bool { return '0' <= c && c <= '9' }
 
 func strGsub(L *LState) int {
 	str := L.CheckString(1)
